@@ -77,8 +77,9 @@ def C01(F, rep, tier, cx):
     RF.R5(F, rep, cx.FL)           # ... and never moves the put position over bytes it does not hold
     RF.B7(F, rep)                  # ... and copies from the container that holds the current position (not a stale one)
     RP.P6(F, rep, cx.R, cx.FL)   # ... and the decoder never rewinds into bytes it let go
+    RP.P9(F, rep, cx.R)          # ... nor does a read release them behind the caller's back
     RF.K12(F, rep, cx.R, cx.FL)  # every object handed to write() reaches the file: the workers drain, close() does not cut them short
-    RF.A1(F, rep)           # the API passes the queue's objects and its end-of-file state through unchanged
+    RF.A1(F, rep, cx.FL)           # the API passes the queue's objects and its end-of-file state through unchanged
 
 
 def C02(F, rep, tier, cx):
@@ -144,6 +145,7 @@ def C04(F, rep, tier, cx):
     stat_size(F, rep)
     RF.F3F4(F, rep, cx.FL)
     RF.F4s(F, rep)
+    RF.F7(F, rep)
     RF.F3p(F, rep, cx.FL)
     RF.F5F6(F, rep, cx.R)
     RF.G1(F, rep)   # no state shared between File instances (a static work buffer corrupts concurrent sessions)
@@ -208,6 +210,7 @@ def C06(F, rep, tier, cx):
     RP.T2(F, rep, cx.R, cx.FL, ws)
     RP.P6(F, rep, cx.R, cx.FL)   # a rewind into released data makes the decoder spin on an empty, 'good' stream
     RF.R2(F, rep, cx.FL)         # ... and so does a read() that returns short without reporting the end
+    RP.K5v(F, rep, cx.R)         # the declared end is the put position of the stage, not a count kept on the side
 
 
 def C07(F, rep, tier, cx):
@@ -240,6 +243,7 @@ def C08(F, rep, tier, cx):
     RP.K5(F, rep, cx.R, cx.FL, ('BLF',), 'library-exception')
     run_layout(F, rep, read_rules=('E6',), extra_classes=(LOGCONT,) if LOGCONT not in object_classes_cached(F) else ())
     RF.E5(F, rep, cx.R)
+    RP.K5v(F, rep, cx.R)
     # the two decoders that work on the compressed file itself seek only over alignment padding: any other seek behind a (possibly short) read
     # clears eofbit of the std::fstream before the state is looked at, and the signature search that leaves only through eof() spins
     run_layout(F, rep, read_rules=('L7',), only=[LOGCONT, FILESTAT])
@@ -279,6 +283,7 @@ def C10(F, rep, tier, cx):
     RP.K6(F, rep, cx.R, cx.FL, ws)        # a worker that stopped on a corrupt object must not leave close() waiting for the other one
     RF.O5(F, rep)                         # no cached pointer into storage that is released concurrently
     RF.E1(F, rep, cx.FL)                  # a short read is noticed before its bytes are used (otherwise the signature search spins on a dead stream)
+    RP.K5v(F, rep, cx.R)                  # a rejected container must not leave a declared end beyond the delivered data
     RF.F3F4(F, rep, cx.FL)                # the compression thread reads into a buffer that was sized for exactly that request
     rep.obs = [o for o in rep.obs if o['rule'] != 'F3']
     rep.counts.pop('F3', None)
@@ -301,6 +306,8 @@ def C12(F, rep, tier, cx):
     RP.P(F, rep, cx.R, cx.FL, cx.ws())
     RP.P6(F, rep, cx.R, cx.FL)
     RP.P8(F, rep, cx.R, cx.ws())
+    RP.P9(F, rep, cx.R)
+    RP.K14(F, rep, cx.R, cx.FL)
     RF.K13(F, rep, cx.R)
     RF.P4(F, rep, cx.FL)
     RF.P5(F, rep, cx.FL)
@@ -315,7 +322,7 @@ def C13(F, rep, tier, cx):
     RF.O4(F, rep, cx.R, cx.FL)
     RP.K6(F, rep, cx.R, cx.FL, cx.ws())   # "sessions shut down cleanly": close() must be able to return (shared with C06)
     RF.K12(F, rep, cx.R, cx.FL)           # ... and a write session is drained before it
-    RF.A1(F, rep)                          # good()/eof() report the queue's state, read() hands the caller what the queue returned
+    RF.A1(F, rep, cx.FL)                          # good()/eof() report the queue's state, read() hands the caller what the queue returned
 
 
 def C14(F, rep, tier, cx):
@@ -327,6 +334,7 @@ def C14(F, rep, tier, cx):
     RF.G1(F, rep)
     RF.K11(F, rep, cx.R, cx.FL)   # "does not depend on timing": no worker decision on a racy snapshot
     RP.K2(F, rep, cx.R)           # ... and no wait that gives up after a while
+    RF.F7(F, rep)                 # ... nor on what an earlier file at the same path held
 
 
 def C15(F, rep, tier, cx):
@@ -341,6 +349,7 @@ def C15(F, rep, tier, cx):
     RF.R3(F, rep, cx.FL)
     RF.R4(F, rep)
     RF.R5(F, rep, cx.FL)
+    RP.P9(F, rep, cx.R)
     RF.P5(F, rep, cx.FL)
     RF.P4(F, rep, cx.FL)
     RF.S4(F, rep)
@@ -356,6 +365,7 @@ def C16(F, rep, tier, cx):
     qcls = {cx.R.stages['m_readWriteQueue']}
     ws = RP.K2(F, rep, cx.R, classes=qcls)
     RP.K3(F, rep, cx.R, cx.FL, ws, classes=qcls)
+    RP.Q45(F, rep, cx.R, cx.FL, ws)
 
 
 def C17(F, rep, tier, cx):
